@@ -81,6 +81,7 @@ class Ctx:
         # reachability of implication antecedents: label -> bool
         self.reach: Dict[str, bool] = {}
         self.known_hits: List[dict] = []
+        self.floors: List[Any] = []  # (base term, constant, to_int term) of this path, see _to_int
 
     # -- solver plumbing -----------------------------------------------------------------------
     def _push(self, term):
@@ -95,6 +96,7 @@ class Ctx:
                 self.depth -= 1
         self.trace = []
         self.pc = []
+        self.floors = []
         self.vars = {}
         self.var_kinds = {}
         self.fresh_n = 0
@@ -386,6 +388,45 @@ def _lin_over_ints(t):
     return None
 
 
+def _split_const(t):
+    """t == base + k with k a rational numeral (k = 0 when there is none)"""
+    if z3.is_rational_value(t):
+        return None
+    if t.decl().kind() == z3.Z3_OP_ADD:
+        k, rest = F(0), []
+        for ch in t.children():
+            if z3.is_rational_value(ch):
+                k += F(ch.numerator_as_long(), ch.denominator_as_long())
+            else:
+                rest.append(ch)
+        if not rest:
+            return None
+        return (z3.simplify(z3.Sum(rest)) if len(rest) > 1 else rest[0]), k
+    return t, F(0)
+
+
+def _to_int(t):
+    """to_int(t), plus the lemma z3 does not find by itself: two floors whose arguments differ by
+    a constant d differ by floor(d) or floor(d)+1 (a tautology, added to the path condition)."""
+    ti = z3.ToInt(t)
+    c = Ctx.cur
+    if c is None or c.concrete or c.solver is None:
+        return ti
+    sp = _split_const(t)
+    if sp is None:
+        return ti
+    base, k = sp
+    for b2, k2, ti2 in c.floors:
+        if b2.eq(base):
+            if k2 == k:
+                return ti2
+            d = k - k2
+            fl = d.numerator // d.denominator
+            c.add(ti - ti2 == fl if d.denominator == 1 else z3.And(ti - ti2 >= fl, ti - ti2 <= fl + 1))
+    c.floors.append((base, k, ti))
+    return ti
+
+
 def _floor_core(t):
     # floor(x / q) == floor(x) div q for a positive integer q: one canonical to_int(x) per x
     if t.decl().kind() == z3.Z3_OP_MUL and t.num_args() == 2:
@@ -394,7 +435,7 @@ def _floor_core(t):
             c, u = u, c
         if z3.is_rational_value(c) and c.numerator_as_long() == 1 and c.denominator_as_long() > 1:
             return _floor_real(u) / c.denominator_as_long()
-    return z3.ToInt(t)
+    return _to_int(t)
 
 
 def _floor_real(t):
@@ -684,12 +725,14 @@ class SymReal(SymNum):
         return s_trunc(self)
 
     def __round__(self, nd=None):
-        if nd is not None:
+        if nd is not None and nd != 0:
             raise Abort("round(x, ndigits) on symbolic real")
         t = self.t
         f = _floor_real(t)
         h = _floor_real(t + z3.RealVal("1/2"))
-        return wrap(z3.If(t != z3.ToReal(f) + z3.RealVal("1/2"), h, z3.If(f % 2 == 0, f, f + 1)))
+        r = z3.If(t != z3.ToReal(f) + z3.RealVal("1/2"), h, z3.If(f % 2 == 0, f, f + 1))
+        # round(x, 0) is the same number as a float
+        return wrap(z3.simplify(z3.ToReal(r))) if nd == 0 else wrap(r)
 
     def __float__(self):
         raise Abort("float() on symbolic real reached a C boundary")
